@@ -449,6 +449,10 @@ def _triples(draw, tier, fields, n_levels, M, L, kinky=False, hs=(1e-5, 3e-5)):
          'h': draw(st.sampled_from(list(hs)))}
     t['mode'] = draw(st.sampled_from(['fd', 'fd', 'kink'])) if kinky else 'fd'
     out.append(t)
+  if kinky and out and not any(t['mode'] == 'kink' for t in out):
+    out[-1]['mode'] = 'kink'    # every configuration of a kinky entry point also sits exactly on the kink once
+  if kinky and out and not any(t['mode'] == 'fd' for t in out):
+    out[0]['mode'] = 'fd'
   return out
 
 
